@@ -31,7 +31,7 @@ META = {
                    'schedule: rows intact, mutual exclusion, no worker stuck. Counterexamples are replayed with two real threads on the '
                    'real pylocker Locker and a real file.',
     'bounds': {'quick': {'outputs': 3, 'iterations': [1, 2], 'statistics: rows x outputs': [(2, 1), (3, 2)], 'concurrent workers': [2], 'interleaving points per worker': 5},
-               'thorough': {'outputs': 3, 'iterations': [1, 2, 3], 'statistics: rows x outputs': [(2, 1), (3, 2), (4, 2)], 'concurrent workers': [2, 3], 'interleaving points per worker': 5}},
+               'thorough': {'outputs': 3, 'iterations': [1, 2, 3], 'statistics: rows x outputs': [(2, 1), (3, 2), (4, 2), (5, 2), (6, 3), (8, 2), (5, 3), (7, 1)], 'concurrent workers': [2, 3], 'interleaving points per worker': 5}},
     'outside': ['the internals of pylocker.acquire_lock (its own check-write-verify protocol on the lock file) and lock time-outs (a worker that waits longer than 10 s drops its row): the lock is modelled by its contract',
                 'more than 3 concurrent workers', 'plots and HTML output', 'more rows / outputs than the bound'],
     'assumptions': ['a rendered number contains no comma, colon, semicolon, parenthesis or newline',
